@@ -8,7 +8,7 @@ open Circuit
 
 /-- type of an io node on creation -/
 def ioTy0 (c : Circuit) (stateIO : List (Name × Name)) (x : Name) : String :=
-  if stateIO.any (fun p => p.1 == x || p.2 == x) then "buf" else if c.inputs.contains x then "input" else "buf"
+  if stateIO.any (fun p => p.2 == x) then "buf" else if c.inputs.contains x then "input" else "buf"
 
 def isVal (stateIO : List (Name × Name)) (x : Name) : Bool := stateIO.any (fun p => p.2 == x)
 
